@@ -355,6 +355,27 @@ func genC03(tier, out string, sum *Summary) {
 			quiet(strings.Replace(ctx, "%s", tok, 1), nil, "token-after-operand")
 		}
 	}
+	// long runs of bytes that are not text, and long valid text with the fault at either end: the error a call
+	// returns must format whatever the expression was made of
+	for _, unit := range []string{"\x80", "\xbf", "\xc0", "\xff", "\xe2\x82", "\xf0\x9f", "\xed\xa0\x80", "é", "€", "😀", "a", "'", "\"", "`", "\\"} {
+		for _, n := range []int{1, 2, 31, 32, 33, 63, 64, 65, 66, 127, 128, 129, 200, 1000, 4097} {
+			body := strings.Repeat(unit, n)
+			quiet(body, nil, "long-runs")
+			quiet("a."+body, nil, "long-runs")
+			quiet(body+" #", nil, "long-runs")
+			quiet("'"+body, nil, "long-runs")
+			quiet("abs("+body, nil, "long-runs")
+			quiet("a"+strings.Repeat(".a", n)+" "+unit, nil, "long-runs")
+			quiet("unknown_"+body+"(a)", nil, "long-runs")
+			quiet("$"+body, nil, "long-runs")
+			if n > 200 {
+				continue
+			}
+			quiet("abs('"+body+"')", nil, "long-runs")
+			quiet("pad_left(@, `-1`)", body, "long-runs")
+			quiet("abs(@)", map[string]any{body: body}, "long-runs")
+		}
+	}
 	// deep nesting (bounded here; the crash at ~10^6 is exercised by the thorough tier in a child process)
 	for _, depth := range []int{100, 1000, 5000} {
 		run(strings.Repeat("(", depth)+"a"+strings.Repeat(")", depth), genDoc(), "deep")
@@ -398,6 +419,9 @@ func genC04(tier, out string, sum *Summary) {
 			sum.direct("accepts-invalid", text, nil, "a string outside the grammar is not rejected as a syntax error: "+describe(o))
 		}
 		distinct[valid+o.Kind+strings.Join(o.Cats, ",")+strconv.Itoa(len(text)%7)] = true
+		if len(text) > 1200 {
+			return // long texts are decided by the membership the family states (a Coq string literal nests as deep as it is long)
+		}
 		sh.Add(fmt.Sprintf("C4 %d %s %s %s", id, hx(text), map[string]string{"valid": "(Some true)", "invalid": "(Some false)", "unknown": "None"}[valid], coqObs(o)))
 		sid := strconv.Itoa(id)
 		sum.Index[sid] = map[string]any{"expr": text, "doc": "null", "observed": obsJSON(o), "expected": valid}
@@ -523,6 +547,22 @@ func genC04(tier, out string, sum *Summary) {
 	for _, tok := range []string{"$x", "$", "@", "`1`", "'r'", "\"q\"", "name", "1", "-1", "&", "!", "(", "{", "*", "let", "in", "=", ":"} {
 		for _, ctx := range []string{"foo %s", "@ %s", "$a %s", "[foo %s]", "abs(foo %s)", "foo[?bar %s]", "let $a = foo %s = bar in $a", "{k: foo %s}", "foo[0] %s", "foo.* %s", "'s' %s", "`1` %s", "(a) %s", "a[1:2] %s", "a || b %s", "!a %s"} {
 			emit(strings.Replace(ctx, "%s", tok, 1), "unknown")
+		}
+	}
+	// the grammar has no limit on length or nesting: long flat repetitions of every construct and deep nests of
+	// every bracketing construct are members (the depth at which the Go stack gives out is C03/C09's business)
+	for _, n := range []int{130, 300, 2000} {
+		rep := func(unit, sep string) string { return strings.TrimSuffix(strings.Repeat(unit+sep, n), sep) }
+		for _, t := range []string{rep("-a", " + "), rep("!a", " && "), rep("+a", " - "), "[" + rep("-a", ", ") + "]", rep("a", " | "), rep("a", " || "), "not_null(" + rep("-a", ", ") + ")", "a" + strings.Repeat(".a", n), "a" + strings.Repeat("[0]", n),
+			rep("(a)", " + "), rep("`1`", " * "), rep("'s'", " == "), "{" + rep("k: -a", ", ") + "}", rep("abs(-a)", " + "), rep("[?-a]", " | "), rep("a[-1]", " < "), "[" + rep("[]", ", ") + "]", rep("a[:-1:-1]", " | "), "let " + rep("$v = -a", ", ") + " in $v", rep("&a", " , ")[:0] + "map(&-a, b)" + strings.Repeat(" | map(&-@, @)", n)} {
+			emit(t, "valid")
+		}
+	}
+	for _, d := range []int{130, 260, 1000} {
+		nest := func(open, close string) string { return strings.Repeat(open, d) + "a" + strings.Repeat(close, d) }
+		for _, t := range []string{nest("(", ")"), nest("[", "]"), nest("{k: ", "}"), nest("abs(", ")"), nest("!", ""), nest("- ", ""), nest("a[?", "]"), nest("not_null(b, ", ")"), nest("let $v = b in ", ""), nest("[b, ", "]"), nest("(b || ", ")"), nest("(b - ", ")"),
+			strings.Repeat("(", d) + "x" + strings.Repeat(" - y)", d), strings.Repeat("(", d) + "x" + strings.Repeat(" || y)", d), "a[?" + nest("(", ")") + "]", nest("map(&", ", b)")} {
+			emit(t, "valid")
 		}
 	}
 	// bounded-exhaustive short strings over the characters that matter to the lexer: the model decides membership
